@@ -130,7 +130,7 @@ package http1
 //@   assert before closeConn: disp == 1
 //@   ghostset after closeConn: disp = 2
 //@   assert before releaseConn: disp == 1 && err == nil && !shouldCloseConn
-//@   assert before releaseConn#1: !resetConnection
+//@   assert before releaseConn!: !resetConnection
 //@   ghostset after releaseConn: disp = 3
 //@   assert before newUpgradeConn: disp == 1
 //@   ghostset after newUpgradeConn: disp = 4
